@@ -121,6 +121,29 @@ struct RunBase
 
 struct Trk : public RunBase, public sigc::trackable
 {
+  // methods with the signal's exact signature, for sigc::signal_connect(sig, obj, &Trk::method): the functor id is a
+  // template argument (a bound_mem_functor carries nothing else); non-const and const overloads
+  template<int FID>
+  int sc(int a)
+  {
+    return invoke_leaf(FID, a);
+  }
+  template<int FID>
+  int sck(int a) const
+  {
+    return invoke_leaf(FID, a);
+  }
+  template<int FID>
+  void scv(int a)
+  {
+    invoke_leaf(FID, a);
+  }
+  template<int FID>
+  void sckv(int a) const
+  {
+    invoke_leaf(FID, a);
+  }
+
   int run(int a, const F& f)
   {
     int fid = f.fid; // copy first: the body may destroy the functor and *this
@@ -583,6 +606,8 @@ struct Interp
         dst = SlotI(F(fid));
       return 0;
     }
+    if (k == "sc" && p.size() == 3)
+      return make_slot<R>("mem:" + std::to_string(8 + std::atoi(p[1].c_str()) % 8) + ":" + p[2], dst);
     if (k == "mem" && p.size() == 3)
     {
       int fid = std::atoi(p[1].c_str());
@@ -1222,6 +1247,76 @@ struct Interp
       int rc = 0;
       int st = spec_taint(w[3]);
       sigc::connection c;
+      if (w[3].rfind("sc:", 0) == 0 && !first)
+      {
+        // the free-function entry point sigc::signal_connect(signal, object, method) — it appends, like connect()
+        std::vector<std::string> sp;
+        {
+          std::stringstream ss(w[3]);
+          std::string t;
+          while (std::getline(ss, t, ':'))
+            sp.push_back(t);
+        }
+        Trk* t = sp.size() == 3 ? get(T, idx(sp[2])) : nullptr;
+        if (sp.size() != 3)
+          return "badtype";
+        if (!t)
+          return "dead";
+        // functor ids 8..15 are reserved for signal_connect functors: a bound_mem_functor holds no countable copy of a
+        // user functor, so these ids are never asked for with `live?`
+        int fid = std::atoi(sp[1].c_str()) % 8;
+        bool useConst = (fid / 2) % 2 == 1;
+#define SC_CASE(N)                                                                                     \
+  case N:                                                                                              \
+    if constexpr (std::is_same<Sig, SigV>::value)                                                      \
+      return useConst ? sigc::signal_connect(sig, *t, &Trk::sckv<N + 8>) : sigc::signal_connect(sig, *t, &Trk::scv<N + 8>); \
+    else if constexpr (std::is_same<Sig, SigI>::value)                                                 \
+      return useConst ? sigc::signal_connect(sig, *t, &Trk::sck<N + 8>) : sigc::signal_connect(sig, *t, &Trk::sc<N + 8>);   \
+    else                                                                                               \
+      break;
+        bool done = false;
+        c = with_sig(*g, [&](auto& sig) -> sigc::connection {
+          using Sig = std::remove_reference_t<decltype(sig)>;
+          switch (fid)
+          {
+            SC_CASE(0) SC_CASE(1) SC_CASE(2) SC_CASE(3) SC_CASE(4) SC_CASE(5) SC_CASE(6) SC_CASE(7)
+          }
+          return sigc::connection();
+        });
+#undef SC_CASE
+        (void)done;
+        // signal_connect() exists for sigc::signal<R(A...)> only: the other flavours use the equivalent connect(mem_fun)
+        if (g->fl != FV_ && g->fl != FI_)
+        {
+          std::string alt = "mem:" + std::to_string(fid + 8) + ":" + sp[2];
+          if (fl_void(g->fl))
+          {
+            SlotV tmp;
+            make_slot<void>(alt, tmp);
+            c = with_sig(*g, [&](auto& sig) -> sigc::connection {
+              using Sig2 = std::remove_reference_t<decltype(sig)>;
+              if constexpr (std::is_same<typename Sig2::slot_type, SlotV>::value)
+                return sig.connect(std::move(tmp));
+              else
+                return sigc::connection();
+            });
+          }
+          else
+          {
+            SlotI tmp;
+            make_slot<int>(alt, tmp);
+            c = with_sig(*g, [&](auto& sig) -> sigc::connection {
+              using Sig2 = std::remove_reference_t<decltype(sig)>;
+              if constexpr (std::is_same<typename Sig2::slot_type, SlotI>::value)
+                return sig.connect(std::move(tmp));
+              else
+                return sigc::connection();
+            });
+          }
+        }
+        set_conn(k, c);
+        return "ok";
+      }
       std::shared_ptr<sigc::connection> selfc; // set for the connect-once variant (plain functors with fid % 3 == 0)
       if (w[3].rfind("fn:", 0) == 0 && std::atoi(w[3].c_str() + 3) % 3 == 0)
         selfc = std::make_shared<sigc::connection>();
